@@ -5,32 +5,43 @@
    model of TmplModel.v.  For the printed text of every AST that satisfies the boolean [wf_template] it returns exactly
    the documented expansion [expand] -- without an error, i.e. with every access of both models inside its array.
 
-   Fragment covered by [wf_template] (TfullModel.v): text, {var:}, {raw:}, {math:expr}, <if case=expr> with else-if / else
-   cases, <loop> with set / value / group / sort, nested (loops up to the 8-bit Level); expressions are the integer fragment of
+   Fragment covered by [wf_template] (TfullModel.v): text, {var:}, {raw:}, {math:expr}, the inline if with a true and an optional
+   false value (values: text without a double quote, var, raw, math; at most 255 sub tags, at most 65535 units),
+   <if case=expr> with else-if / else cases, <loop> with set / value / group / sort, nested (loops up to the 8-bit Level);
+   expressions are the integer fragment of
    TmplModel (naturals below 10^19, variables, parenthesised binary expressions with the operators + - * == != < > <= >= && ||).
    Expression evaluation of the instance ([jv_math] / [jv_cond], TfullModel.v) is TmplModel.eval_expr transcribed to the
    QExpression arrays the parser model builds ([qexpr_of]); [TfullSem.q_top_expr] proves the two equal.
-   Not covered yet: {svar:} and the inline if.  The statement for all constructors is kept as [c02_full_statement]. *)
+   the super variable with at least one value (values: var, raw, math; its own name holds no comma and no value name of an
+   enclosing loop is a prefix of it -- parse does not call checkLoopVariable for it).
+   Every constructor of TmplModel.tnode is covered; [c02_full_statement wf_template] is the statement for all of them. *)
 From Coq Require Import NArith List Bool.
 From Qv Require Import gen.Tables EscapeModel TmplModel TmplRender TmplProofs TparseModel TrenderModel TrenderProofs TrenderInst
-  TfullModel TfullSem TfullParse TfullExpr TfullNum TfullParseMain.
+  TfullModel TfullSem TfullParse TfullExpr TfullNum TfullIif TfullParseMain.
 Import ListNotations.
 
-Theorem c02_full_if_math : forall auto w root ast, wf_template ast = true ->
+Theorem c02_full : forall auto w root ast, wf_template ast = true ->
   render_all_jv auto w (print_nodes ast) root = ROk (expand auto w root ast).
 Proof.
   intros auto w root ast Hwf. unfold render_all_jv, render_all. rewrite (parse_print_full w ast Hwf).
   exact (render_tree_expand auto w root ast Hwf).
 Qed.
 
-(* the earlier name (the fragment of phase 3 is included in the present one) *)
+(* the earlier names (the earlier fragments are included in the present one) *)
+Corollary c02_full_iif : forall auto w root ast, wf_template ast = true ->
+  render_all_jv auto w (print_nodes ast) root = ROk (expand auto w root ast).
+Proof. exact c02_full. Qed.
+Corollary c02_full_if_math : forall auto w root ast, wf_template ast = true ->
+  render_all_jv auto w (print_nodes ast) root = ROk (expand auto w root ast).
+Proof. exact c02_full. Qed.
+
 Corollary c02_full_loops : forall auto w root ast, wf_template ast = true ->
   render_all_jv auto w (print_nodes ast) root = ROk (expand auto w root ast).
 Proof. exact c02_full_if_math. Qed.
 
 (* the full statement, instantiated with the well-formedness predicate proved so far *)
 Corollary c02_full_wf_template : c02_full_statement wf_template.
-Proof. unfold c02_full_statement. exact c02_full_if_math. Qed.
+Proof. unfold c02_full_statement. exact c02_full. Qed.
 
 (* the two halves, for reference *)
 Definition c02_parse_print := parse_print_full.      (* parse_model w (print_nodes ast) = Ok (tree_of_full ast) *)
@@ -53,4 +64,20 @@ Example wf_template_example2 :
     [TIf (EBin 8 (EBin 2 (EBin 0 (EVar ([110]%N, [])) (ENum 2)) (ENum 3)) (EVar ([108;105;115;116]%N, [[48]%N])))
          [TMath (EBin 1 (EVar ([110]%N, [])) (ENum 1))]
          [(Some (EBin 3 (EVar ([115]%N, [])) (ENum 7)), [TText [98]%N]); (None, [TText [99]%N])]] = true.
+Proof. reflexivity. Qed.
+
+(* ... with an inline if:  {if case="{var:n} > 1" true="a{var:n}" false="{math:{var:n} + 1}b"}{if case="0" true="x"} *)
+Example wf_template_example3 :
+  wf_template
+    [TIIf (EBin 6 (EVar ([110]%N, [])) (ENum 1)) [TText [97]%N; TVar ([110]%N, [])]
+          (Some [TMath (EBin 0 (EVar ([110]%N, [])) (ENum 1)); TText [98]%N]);
+     TIIf (ENum 0) [TText [120]%N] None] = true.
+Proof. reflexivity. Qed.
+
+(* ... with a super variable:  <loop value="v">{svar:phrase, {var:v}, {math:{var:n} * 2}, {raw:s[0]}}</loop> *)
+Example wf_template_example4 :
+  wf_template
+    [TLoop None [118]%N [] 0
+       [TSVar ([112;104;114;97;115;101]%N, [])
+              [TVar ([118]%N, []); TMath (EBin 2 (EVar ([110]%N, [])) (ENum 2)); TRaw ([115]%N, [[48]%N])]]] = true.
 Proof. reflexivity. Qed.
